@@ -1009,6 +1009,19 @@ def run(tier, seed):
     s_cases, s_outs, s_errors = run_sessions(impl, sessions, tmp)
     cases, outs = cases + s_cases, outs + s_outs
     res.infra_errors += s_errors
+    # live sessions: a real profiler (registrations, also repeated after runs) reports through print_stats() and
+    # dump_stats()+load_stats(); both must agree, character by character, with show_text() on the same snapshot -
+    # the function the model is tied to (harness/drivers/c10live.py)
+    live = core.run_impl(impl, 'harness.drivers.c10live', dict(tmp=str(tmp), seed=seed * 7919 + 13,
+                                                                sessions=12 if tier == 'quick' else 300), timeout=900)['sessions']
+    live_fails = []
+    for k, sl in enumerate(live):
+        if not sl['ok']:
+            f0 = sl['fails'][0]
+            live_fails.append(dict(case=dict(live_session=k, history=sl['history'], source=sl['source'], seed=seed, tier=tier), impl=f0,
+                                   why='live profiler: print_stats() / dump_stats()+load_stats() differ from show_text() on the same '
+                                       'get_stats() snapshot (%s)' % (f0.get('why') or 'options stripzeros, sort, summarize, details = %r' % (f0.get('combo'),)),
+                                   finding=None))
 
     def search(budget):
         r2 = core.rng(seed + 1, PROP)
@@ -1058,6 +1071,8 @@ def run(tier, seed):
                                            why='Coq-side spec_ok is false (python-side predicate passed)',
                                            finding=classify_any(case, combo, outs[ci]['parsed'][j], file_info_of(case))))
     res.spec_fails += py_fails
+    res.spec_fails += live_fails
+    res.notes.append('live sessions (real profiler through print_stats / dump+load vs show_text on the same snapshot): %d, %d with a function registered again after it ran' % (len(live), sum(1 for x in live if x.get('registered_twice'))))
     t_sh = time.time() - t_sh
     for ci, (c, o) in enumerate(zip(cases, outs)):
         for e in o['env']:
@@ -1145,6 +1160,13 @@ def replay(path):
     import atexit
     atexit.register(shutil.rmtree, str(tmp), True)
     case = data['case']
+    if 'live_session' in case:
+        # a live session is replayed by its seed: the driver regenerates the same sessions
+        n = case['live_session'] + 1
+        live = core.run_impl(impl, 'harness.drivers.c10live', dict(tmp=str(tmp), seed=case['seed'] * 7919 + 13, sessions=n), timeout=900)['sessions']
+        sl = live[-1]
+        print(json.dumps(dict(live_session=case['live_session'], history=sl['history'], holds=sl['ok'], fails=sl['fails']), indent=1))
+        return 0 if sl['ok'] else 1
     # re-root the files under the current scratch directory
     old = case['dir']
     new = str(tmp / 'replay')
